@@ -632,6 +632,11 @@ impl Rig {
         Ok(idx)
     }
 
+    /// a mute worker the hub still targets exists: every scattered request waits for the worker time-out
+    pub fn has_live_mute(&self) -> bool {
+        self.workers.iter().any(|w| w.kind == Kind::Mute && !w.killed)
+    }
+
     /// Workers whose thread ended although the harness did not kill them: (id, how)
     pub fn unexpected_exits(&mut self) -> Vec<(u32, String)> {
         let mut out = Vec::new();
@@ -932,6 +937,12 @@ impl Observation {
 }
 
 pub fn observe(rig: &mut Rig, conc: &Conc, certs: &[&str], deadline: Duration) -> Observation {
+    observe_with(rig, conc, certs, deadline, true)
+}
+
+/// `queries = false`: no scattered query (with a mute worker every one of them waits for the worker
+/// time-out): only ListWorkers and the scratch SaveState, which the main process answers alone.
+pub fn observe_with(rig: &mut Rig, conc: &Conc, certs: &[&str], deadline: Duration, queries: bool) -> Observation {
     let mut problems = Vec::new();
     let hv = match rig.run_states(2) {
         Ok(m) => m.into_iter().map(|(k, v)| (k.to_string(), v.to_string())).collect(),
@@ -940,7 +951,11 @@ pub fn observe(rig: &mut Rig, conc: &Conc, certs: &[&str], deadline: Duration) -
             BTreeMap::new()
         }
     };
-    let v = rig.views(conc, certs, deadline);
+    let v = if queries {
+        rig.views(conc, certs, deadline)
+    } else {
+        Views { by_source: BTreeMap::new(), hashes: BTreeMap::new(), problems: Vec::new() }
+    };
     problems.extend(v.problems);
     let mut hash_eq = BTreeMap::new();
     if let Some(mh) = v.hashes.get("main") {
